@@ -20,7 +20,7 @@ OBLIGATIONS = [
        bounds="all edit sequences of length 2 over {replace, insert, delete, set_field} x index -5..4 x 4 field templates (thorough: index -7..6 x 6 templates, plus length 3 over index -1..1 x 2 templates) on a 3-field file; list reference model; text re-read after every step"),
     SX("sx_gfffile", "sx_c12_annot", "ob_gfffile", cls="E", quick=300, thorough=1800, parts={"quick": 5, "thorough": 5},
        functions=["src/biotite/sequence/io/gff/file.py:GFFFile.insert/append/append_directive/__setitem__/__getitem__/__delitem__/directives/_index_entries/_create_line/_parse_attributes"],
-       bounds="all edit sequences of length 2 (thorough 3) over {replace, insert, delete, append, append directive} x index -4..4 (-5..5) x 4 entries (percent-encoded ids, every strand / score / phase form, duplicate entry) on a file with 2 entries: entries by positive and negative index, out-of-range indices refused, directives with their line positions, text re-read after every step"),
+       bounds="all edit sequences of length 2 (thorough 3) over {replace, insert, delete, append, append directive} x index -4..4 x 4 entries (thorough: length 3, index -3..3, 2 entries) (percent-encoded ids, every strand / score / phase form, duplicate entry) on a file with 2 entries: entries by positive and negative index, out-of-range indices refused, directives with their line positions, text re-read after every step"),
     SX("sx_fasta", "sx_c12", "ob_fasta", cls="E", quick=200, thorough=600, parts={"quick": 6, "thorough": 6},
        functions=[P + "fasta/file.py:FastaFile", P + "fasta/convert.py:set_sequence(s)/get_sequences/_convert_to_string/_convert_to_sequence"],
        bounds="2 entries from a 6-sequence menu (nucleotide, ambiguous, protein with stops), as_rna on/off, chars_per_line 1/3/80, edit {none, delete, replace}"),
